@@ -6,3 +6,11 @@ CHECKS["C15"] = (
     "Trusted: vf/blocking.py DP (forward relaxation over slab edges), torch storage_offset/data_ptr semantics. Shapes beyond numel 20000 / order 5 are not explored.",
     "DESIGN.md 3 C15",
 )
+
+CHECKS["C16"] = (
+    "exploration",
+    "runtime monitoring: generated hostile-key nested dicts and OptimizerModule object graphs pushed through the real flatten/unflatten/state_dict/load_state_dict, judged by structural-equality, injectivity and tensor-identity monitors",
+    "Thousands of generated structures per run (depth<=6, hostile key alphabet incl. separators/quotes/brackets/'0' vs 0/huge ints/lone surrogates, leafless sub-dicts; module graphs with tensors, dicts, tuples, lists, nested modules, ignored non-tensors, several dtypes incl. empty tensors); every structure is checked for injectivity (#flat keys == #leaves), exact round trip (nesting, key types, leaf identity; pruned input when leafless parts exist), completeness of state_dict by an independent traversal, and in-place load into a structurally equal twin (object ids and storages unchanged, values equal), directly and through the flatten->unflatten checkpoint path. Sampled, not exhaustive.",
+    "Trusted: the harness's own traversal of dict/list/tuple/module graphs; Python dict semantics. Sets and float/bool keys are outside the stated domain and not generated.",
+    "DESIGN.md 3 C16",
+)
